@@ -89,7 +89,8 @@ class C17(Prop):
                   "binary is written only for a program whose inherited programs, at any depth, are still current in memory "
                   "(saved_only_against_current_parents); quickSort as coded permutes for every comparison function and sorts for "
                   "strict orders, so the function table and every string switch table come out in the order their searches "
-                  "assume; the in-place sort by swaps, the f_index remap and type_start follow; relocation round-trips and covers "
+                  "assume; every #include directive still resolves to the recorded file when a binary is used (includes_resolve_as_recorded); "
+                  "the in-place sort by swaps, the f_index remap and type_start follow; relocation round-trips and covers "
                   "every pointer member; the byte format round-trips (binary_file_roundtrip) and every read is length-checked.  "
                   "Equality of whole programs is by correspondence: generated programs are compiled, dumped, reloaded from the "
                   "binary and dumped again; the Lean model predicts the reloaded dump from the fresh one and the Lean oracle "
@@ -98,7 +99,7 @@ class C17(Prop):
                   "lists, statement orders and function texts; the harness (differential; only generated programs and "
                   "histories); the compiler is not modelled (its dumps are data); no judge(model trace) = [] for whole "
                   "histories - clause-level top theorems for the never-stale and outdated-parent clauses "
-                  "(model_use_passes_stale_clause, model_save_passes_outdated_clause), invariants for the others; open finding C17-include-shadowed (include search order); the "
+                  "(model_use_passes_stale_clause, model_save_passes_outdated_clause, model_use_passes_shadow_clause), invariants for the others; the "
                   "program generator is a grammar of shapes, not all LPC")
     rule = ("cases = corpus + known-finding inputs + boundary list + seeded random cases of six kinds: uqsort (the real quickSort "
             "on 0..250 elements of 4/8/10 bytes under comparison tables that are orders, preorders, constant or random), usort (random "
@@ -112,8 +113,8 @@ class C17(Prop):
             "toggled; chains with unsaved parents; every reload either in the same process or each in a fresh process; "
             "in half of the cases a reference compile of the current sources (own process, no binaries) before every reload, which the program loaded from a binary is compared with; reload after every step with permuted string addresses; every decision branch of the model is taken (histogram.decision_branches); non-trivial = trace with >= 2 lines; distinct = "
             "distinct canonical implementation trace")
-    not_covered = ["an include file shadowed by a new file earlier in the search path: open finding C17-include-shadowed "
-                   "(witness + partial theorem; replayed from the known input only, not generated)",
+    not_covered = ["the '!' (missed candidate) entries of an UNSAVED parent are not kept: shadowing of an include of an unsaved "
+                   "parent is seen only when that parent is compiled again",
                    "the refusal branches of save_binary for programs / include lists above USHRT_MAX and strings of USHRT_MAX "
                    "or more (they are the hypotheses of binary_file_roundtrip; no generated program is that large)",
                    "clock granularity: an edit in the same second as a load or a save (the quantifier has distinct times)",
